@@ -360,6 +360,8 @@ pub fn random(seed: u64, d: Duration) -> Scenario {
     s.world.pending_p = *r.pick(&[0u32, 0, 32]);
     s.world.write_cap = *r.pick(&[usize::MAX, usize::MAX, 5, 1]);
     s.world.pending_as_set = r.chance(1, 2);
+    // the application may drop the events receiver
+    s.keep_events = !r.chance(1, 10);
     // notifications over the span of the session
     let n = match r.below(4) {
         0 => 0,
